@@ -381,11 +381,16 @@ class History:
             err = errno.EBADF
         else:
             st = os.fstat(info['py'])
+        hi = None
+        if err == 0:
+            # the host's own view of the same descriptor right before the call; sometimes after a status-only change (mode toggle),
+            # so that ctime differs from mtime
+            hi = g.emit('H %d%s' % (fd, ' chmod' if self.r.random() < 0.4 and not info['isdir'] else ''), 'hoststat')
         idx = g.call('fd_filestat_get', [fd, res], abi=abi)
         self.expect[idx] = ('fd_filestat_get', wasi_errno_of(err))
         if err == 0:
             di = g.dump(res, 72)
-            self.stat_checks.append((di, abi, st, info['path']))
+            self.stat_checks.append((di, abi, st, info['path'], hi))
             g.poke(res, b'\0' * 72)  # re-synchronise the model (time/ino fields are not predictable)
         self.classes.append(('fd_filestat_get', abi, 'ok' if err == 0 else 'EBADF', 'dir' if info and info['isdir'] else 'file'))
         g.expect_crc()
@@ -593,7 +598,7 @@ def main(chk):
                     break
         if first_bad is None and not res:
             # filestat dumps
-            for di, abi, st, path in h.stat_checks:
+            for di, abi, st, path, hi in h.stat_checks:
                 if di >= len(out):
                     continue
                 hx = out[di].split(' ')[3]
@@ -620,6 +625,11 @@ def main(chk):
                     probs.append('ino %d != %d' % (u64(8), stB.st_ino))
                 if raw[end:] != b'\x77' * (72 - end):
                     probs.append('wrote past the %d-byte filestat' % end)
+                if hi is not None and hi < len(out) and out[hi].split(' ')[2] != 'none':
+                    hv = [int(x) for x in out[hi].split(' ')[2:7]]
+                    for nm_, got_, want_ in (('atim', times[0], hv[0]), ('mtim', times[1], hv[1]), ('ctim', times[2], hv[2])):
+                        if got_ != want_:
+                            probs.append('%s %d != host fstat of the same descriptor %d' % (nm_, got_, want_))
                 now = stB.st_mtime_ns
                 for t in times:
                     if not (now - 3600 * 10**9 <= t <= now + 3600 * 10**9):
